@@ -1,7 +1,7 @@
 INIT Init
 NEXT Next
 CONSTANTS
-  Parts = {"real", "cx", "arr", "inf"}
+  Parts = {"real", "cx", "arr", "inf", "fine", "cans"}
   Level = 1
 INVARIANT LawOutDomain
 INVARIANT InvZeroDeviation
@@ -14,6 +14,9 @@ INVARIANT InvPctScale
 INVARIANT InvInfinity
 INVARIANT InvNormBounds
 INVARIANT InvMarginConsistent
+INVARIANT InvOrderIrrelevant
+INVARIANT InvConstAnswerAllSamples
+INVARIANT InvMulShortcut
 INVARIANT InvFailableMonotone
 INVARIANT InvAllMiss
 INVARIANT InvAllMissRejected
